@@ -399,6 +399,10 @@ class MinErrorFlow():
                 self._is_solved = True # START hack to get the corrected graph                
                 corrected_graph = self.get_corrected_graph()
                 self._is_solved = False # END hack to get the corrected graph
+                # Drop the solution cached by the hack above, so that get_solution() reports
+                # the result of the second solve (and raises if that one is not solved)
+                self._solution = None
+                self.edge_sol = {}
 
                 # Pick 30 random edges of G.edges()
                 edge_subset = [e for e in self.original_graph_copy.edges()]
